@@ -1,4 +1,5 @@
 #include "simfs.h"
+#include "sched.h"
 #include <algorithm>
 #include <cerrno>
 #include <cstdio>
@@ -36,6 +37,7 @@ struct State
   Faults faults;
   Stats stats;
   i64 read_calls = 0, write_calls = 0, bytes_budget_used = 0;
+  std::map<int, i64> task_reads;
   bool write_broken = false;
   std::function<void()> observer;
   i64 clock = 1600000000;
@@ -77,7 +79,7 @@ void reset()
   s.write_broken = false;
   s.observer = nullptr;
 }
-void begin_op() { State & s = S(); s.read_calls = s.write_calls = 0; s.write_broken = false; s.bytes_budget_used = 0; }
+void begin_op() { State & s = S(); s.read_calls = s.write_calls = 0; s.write_broken = false; s.bytes_budget_used = 0; s.task_reads.clear(); }
 
 void put(const std::string & path, const std::string & data)
 {
@@ -228,6 +230,11 @@ ssize_t __wrap_read(int fd, void * buf, size_t n)
   i64 call = s.read_calls++;
   s.stats.reads++;
   if (s.faults.eio_at_read >= 0 && call >= s.faults.eio_at_read) { s.stats.read_eio++; errno = EIO; return -1; }
+  if (!s.faults.task_eio_at_read.empty()) {
+    int t = sim::sched::current_task();
+    auto it2 = s.faults.task_eio_at_read.find(t);
+    if (it2 != s.faults.task_eio_at_read.end() && s.task_reads[t]++ >= it2->second) { s.stats.read_eio++; errno = EIO; return -1; }
+  }
   if (s.faults.eintr_every > 0 && (call % s.faults.eintr_every) == s.faults.eintr_every - 1) {
     // fail once; the retry is a new call index
     s.stats.eintr++; errno = EINTR; return -1;
